@@ -44,10 +44,10 @@ TIERS = {
 REACH_PROBES = ["redefined_in_slot", "closure_dropped_from_container", "container_cleared", "file_reloaded", "file_deleted",
                 "unloaded_and_compared", "setup_again", "several_names_one_entity", "same_live_set_seen_twice",
                 "stale_condition_probe", "periodic_trigger_removed", "webhook_redefined",
-                "stop_while_definition_in_progress"]
+                "stop_while_definition_in_progress", "shared_service_name_refused"]
 SHRINK_LISTS = [["ops"], ["spec", "templates"]]
 
-KINDS = ["ev", "st", "st2", "time", "per", "mqtt", "hook", "svc"]
+KINDS = ["ev", "st", "st2", "time", "per", "mqtt", "hook", "svc", "shr"]
 SLOTS = ["a", "b", "c"]
 FILES = ["ga", "gb"]
 
@@ -124,6 +124,9 @@ def _decorators(kinds: list, slot_expr: str) -> list[str]:
             out.append(f"@webhook_trigger('hook_' + {slot_expr})")
         elif kind == "svc":
             out.append(f"@service('pyscript.svc_' + {slot_expr})")
+        elif kind == "shr":
+            # one service name wanted by every definition that has this kind: the first context to declare it owns it
+            out.append("@service('pyscript.svc_shared')")
     return out
 
 
@@ -268,6 +271,8 @@ def run(scn: dict) -> dict:
         census_by_key: dict = {}
         list_n = 0
         expected_extra: list = []   # startup / shutdown markers expected in the current interval
+        shared = {"owner": None}    # context that owns pyscript.svc_shared (reference model of the ownership rule)
+        shared_calls: set = set()   # (key, gen) run by the probe call of the shared service in the current round
         racing: set = set()         # (key, gen) of definitions whose context was stopped while they were in progress:
         #                             whether their startup/shutdown markers appear is don't-care; they must never run
         #                             for an occurrence afterwards
@@ -276,10 +281,23 @@ def run(scn: dict) -> dict:
         def kinds_of(key):
             return templates[live[key]["tmpl"]]
 
+        def ctx_of(key):
+            return key if key.startswith("file_") else "main"
+
         def define(key, tmpl, where, gen_no):
             if key in live:
                 remove(key, "redefine")
             live[key] = {"gen": gen_no, "tmpl": tmpl, "where": where}
+            # refused when another context has a live declarer of the shared name; what else of a refused definition
+            # is active is not stated (legacy: nothing is set up, new: the manager is rolled back)
+            if "shr" in templates[tmpl] and shared["owner"] not in (None, ctx_of(key)):
+                live[key]["refused"] = True
+                racing.add((key, gen_no))  # its startup/shutdown markers are don't-care as well
+                w.probe("shared_service_name_refused")
+                return
+            racing.discard((key, gen_no))
+            if "shr" in templates[tmpl]:
+                shared["owner"] = ctx_of(key)
             if "time" in templates[tmpl]:
                 expected_extra.append(("run", key, gen_no, tmpl, "time", "startup"))
 
@@ -287,8 +305,12 @@ def run(scn: dict) -> dict:
             ent = live.pop(key, None)
             if ent is None:
                 return
+            if "shr" in templates[ent["tmpl"]] and not ent.get("refused") and not any(
+                    "shr" in templates[v["tmpl"]] and not v.get("refused") and ctx_of(k) == ctx_of(key)
+                    for k, v in live.items()):
+                shared["owner"] = None  # the last declaration of the owning context is gone: the name is free
             state["removed_any"] = True
-            if "time" in templates[ent["tmpl"]]:
+            if "time" in templates[ent["tmpl"]] and not ent.get("refused"):
                 expected_extra.append(("run", key, ent["gen"], ent["tmpl"], "time", "shutdown"))
             if "per" in templates[ent["tmpl"]]:
                 w.probe("periodic_trigger_removed")
@@ -298,7 +320,8 @@ def run(scn: dict) -> dict:
         # the startup markers of the initial load happened before the driver started
         init_marks = [tuple(m["args"][:6]) for m in w.marks]
         want_init = sorted(expected_extra)
-        got_init = sorted(t for t in init_marks if t[4] == "time" and t[5] in ("startup", "shutdown"))
+        got_init = sorted(t for t in init_marks if t[4] == "time" and t[5] in ("startup", "shutdown")
+                          and (t[1], t[2]) not in racing)
         if got_init != want_init:
             viol("C09.startup_shutdown", {"when": "initial_load"}, f"initial load: startup markers {got_init}, expected {want_init}")
         expected_extra.clear()
@@ -337,6 +360,8 @@ def run(scn: dict) -> dict:
                 svc = f"svc_{key}"
                 should = key in live and "svc" in kinds_of(key) and entry_loaded
                 has = w.hass.services.has_service("pyscript", svc)
+                if key in live and live[key].get("refused"):
+                    should = has  # a refused definition: don't-care
                 if has != should:
                     viol("C09.service_registration", {"should_exist": should},
                          f"after {tag}: service pyscript.{svc} exists={has}, reference says {should} (live {sorted(live)})")
@@ -345,10 +370,44 @@ def run(scn: dict) -> dict:
                         await w.call_service("pyscript", svc, {"tag": tag}, blocking=True)
                     except ServiceNotFound:
                         pass
+            # the shared service name: registered by nobody once no live definition declares it
+            declarers = [k for k, v in live.items() if "shr" in templates[v["tmpl"]]]
+            has_shared = w.hass.services.has_service("pyscript", "svc_shared")
+            if has_shared and (not declarers or not entry_loaded):
+                viol("C09.service_registration", {"should_exist": False, "shared": True},
+                     f"after {tag}: service pyscript.svc_shared is registered although no live function declares it "
+                     f"(live {sorted(live)})")
+            if entry_loaded and not has_shared and any(not live[k].get("refused") for k in declarers):
+                viol("C09.service_registration", {"should_exist": True, "shared": True},
+                     f"after {tag}: service pyscript.svc_shared is not registered although a live function of the owning "
+                     f"context declares it (live {live})")
+            shared_calls.clear()
+            if has_shared:
+                n0 = len(w.marks)
+                try:
+                    await w.call_service("pyscript", "svc_shared", {"tag": tag}, blocking=True)
+                except ServiceNotFound:
+                    pass
+                await w.settle(0.05)
+                for m in w.marks[n0:]:
+                    if m["args"][4] == "service":
+                        shared_calls.add(id(m))
+                        if m["args"][1] not in live or live[m["args"][1]]["gen"] != m["args"][2]:
+                            # the registered handler is the one of the latest declaration; when that function goes
+                            # away while an older declarer of the same context is still live, the handler stays
+                            same_ctx = any(ctx_of(k) == ctx_of(m["args"][1]) and not live[k].get("refused")
+                                           for k in declarers)
+                            viol("C09.dead_function_ran",
+                                 {"trigger": "service", "shared": True,
+                                  "why": "older_declarer_in_same_context_keeps_name" if same_ctx else "unexplained"},
+                                 f"after {tag}: pyscript.svc_shared ran {m['args'][1]} gen {m['args'][2]} which is not "
+                                 f"live (live {live})")
             await w.settle(0.2)
             if entry_loaded:
                 for key in sorted(live):
                     ent = live[key]
+                    if ent.get("refused"):
+                        continue
                     kinds = kinds_of(key)
                     base = ("run", key, ent["gen"], ent["tmpl"])
                     if "ev" in kinds:
@@ -373,6 +432,10 @@ def run(scn: dict) -> dict:
                 args = m["args"]
                 tup = tuple(args[:6])
                 if (args[1], args[2]) in racing and args[4] == "time" and args[5] in ("startup", "shutdown"):
+                    continue
+                if args[1] in live and live[args[1]].get("refused") and live[args[1]]["gen"] == args[2]:
+                    continue  # a refused definition: don't-care
+                if id(m) in shared_calls:
                     continue
                 if args[4] == "state":
                     tup = tup + (args[6],)
@@ -405,7 +468,7 @@ def run(scn: dict) -> dict:
                     viol("C09.ran_twice", {"trigger": str(dup[0][4])}, f"after {tag}: {dup} ran more than once")
 
         def census_check(tag):
-            key = json.dumps([sorted((k, v["tmpl"]) for k, v in live.items()), entry_loaded])
+            key = json.dumps([sorted((k, v["tmpl"], bool(v.get("refused"))) for k, v in live.items()), entry_loaded])
             cen = _census(w)
             if key in census_by_key:
                 w.probe("same_live_set_seen_twice")
@@ -550,14 +613,16 @@ def run(scn: dict) -> dict:
         state["live_end"] = copy.deepcopy(live)
         state["entry_loaded"] = entry_loaded
         state["mark_pos"] = len(w.marks)
+        state["racing"] = set(racing)
 
     w.run(driver)
     # ---- HA stop: shutdown markers exactly once for every live definition with a shutdown trigger
     if state.get("entry_loaded"):
         exp = sorted((("run", key, ent["gen"], ent["tmpl"], "time", "shutdown") for key, ent in state["live_end"].items()
-                      if "time" in templates[ent["tmpl"]]), key=repr)
+                      if "time" in templates[ent["tmpl"]] and not ent.get("refused")), key=repr)
         got = sorted((tuple(m["args"][:6]) for m in w.marks[state["mark_pos"]:]
-                      if m["args"][4] == "time" and m["args"][5] in ("startup", "shutdown")), key=repr)
+                      if m["args"][4] == "time" and m["args"][5] in ("startup", "shutdown")
+                      and (m["args"][1], m["args"][2]) not in state.get("racing", ())), key=repr)
         if got != exp:
             viol("C09.startup_shutdown", {"when": "ha_stop"}, f"at Home Assistant stop: markers {got}, expected {exp}")
     if w.ha_exceptions:
